@@ -969,6 +969,39 @@ fn render(w: &WorldSpec) -> String {
 // ------------------------------------------------------------------------------------------------------------
 // shared between the concurrent and the sequential sub-check
 
+/// Verdicts of failed cases, by fingerprint of the decoded case. The engine evaluates a failing tape a second time to
+/// obtain the final message; with sampled schedules (and with address-dependent behaviour of the code under test) that
+/// second evaluation can end differently, which would replace the signature of the failure that was actually seen.
+/// Handing back the first verdict for the very same case keeps the report faithful. Passing cases are never cached.
+static FAILED: Mutex<Vec<(u64, String, String)>> = Mutex::new(Vec::new());
+
+fn fingerprint<T: std::hash::Hash>(t: &T) -> u64 {
+    use std::hash::Hasher;
+    let mut h = std::collections::hash_map::DefaultHasher::new();
+    t.hash(&mut h);
+    h.finish()
+}
+
+fn cached_failure(c: &mut Case, fp: u64) -> bool {
+    if let Ok(g) = FAILED.lock() {
+        if let Some((_, sig, msg)) = g.iter().find(|(f, _, _)| *f == fp) {
+            c.fail_sig(sig, msg.clone());
+            return true;
+        }
+    }
+    false
+}
+
+fn remember_failure(c: &Case, fp: u64) {
+    if let Verdict::Fail { sig, msg } = &c.verdict {
+        if let Ok(mut g) = FAILED.lock() {
+            if g.len() < 256 && !g.iter().any(|(f, _, _)| *f == fp) {
+                g.push((fp, sig.clone(), msg.clone()));
+            }
+        }
+    }
+}
+
 struct Built {
     _world: World,
     git: Git,
@@ -1499,6 +1532,10 @@ pub fn main() {
         let (w, script) = gen_sequential(t);
         c.key(&(&w, &script));
         c.sample_with(|| render_sequential(&w, &script));
+        let fp = fingerprint(&(&w, &script));
+        if cached_failure(c, fp) {
+            return;
+        }
         let steps: Vec<&Step> = script.iter().filter_map(|a| if let Act::Git(s) = a { Some(s) } else { None }).collect();
         world_labels(c, &w, &steps);
         // non-trivial: ops(H) .. ops(other) .. destructive git .. ops(other)? .. ops(H), in script order
@@ -1623,16 +1660,22 @@ pub fn main() {
         }
         drop(handles);
         if !judge(c, &b, &outs, &described) {
+            remember_failure(c, fp);
             return;
         }
         let _ = outcome_labels(c, &b, &outs);
     });
 
-    let cfg = SubCfg::new(24, 600).max_len(400).threads(2).max_shrink(4);
+    // no shrinking: a schedule-dependent failure rarely survives a changed tape, and every evaluation is expensive
+    let cfg = SubCfg::new(24, 600).max_len(400).threads(2).max_shrink(0);
     ck.sub("repack", cfg, |t, c| {
         let w = gen_world(t);
         c.key(&w);
         c.sample_with(|| render(&w));
+        let fp = fingerprint(&w);
+        if cached_failure(c, fp) {
+            return;
+        }
         let steps: Vec<&Step> = w.steps.iter().map(|(s, _)| s).collect();
         world_labels(c, &w, &steps);
         let Some(mut b) = build_world(c, &w, &steps, "c12") else { return };
@@ -1704,6 +1747,7 @@ pub fn main() {
             return;
         }
         if !judge(c, &b, &outs, &described) {
+            remember_failure(c, fp);
             return;
         }
         let (refreshes, during, moved) = outcome_labels(c, &b, &outs);
